@@ -99,7 +99,9 @@ func raceMux(t *testing.T, rng *mathrand.Rand) {
 	go func() { wg.Wait(); close(done) }()
 	select {
 	case <-done:
-	case <-time.After(20 * time.Second):
+	case <-time.After(120 * time.Second):
+		// not a matter of load: every operation here is a few lock acquisitions and channel operations
+		fmt.Printf("MUX-VIOLATION %d concurrent IngressConn/Accept/Close/cancel operations on one multiplexing listener: some had not returned two minutes after Close returned or was called (blocked for good)\n", n)
 		t.Fatalf("C18 race stress: operations did not return after Close")
 	}
 }
